@@ -550,8 +550,7 @@ class ProblemTable:
             ([row_top[t_idx]], rows[:, t_idx], [row_bot[t_idx]])
         )
         for i in range(rows.shape[0]):
-            rows[i, delta_idx] = temps_chain[i + 1] - temps_chain[i + 2]
-        top_adjusted[delta_idx] = temps_chain[0] - temps_chain[1]
+            rows[i, delta_idx] = temps_chain[i] - temps_chain[i + 1]
         bottom_adjusted = self._adjust_bottom_row(row_bot, rows, t_idx, delta_idx)
         self._update_heat_capacity_pairs(rows, top_adjusted, bottom_adjusted, delta_idx)
         return rows, top_adjusted, bottom_adjusted
